@@ -144,7 +144,7 @@ def run_case(case):
 
 
 def strategy():
-    enc = st.sampled_from(km.ENCODINGS)
+    enc = st.sampled_from(km.ENCODINGS + km.ENCODINGS + km.ALIASES)
     seqs = sorted(km.tables().table)
     data = st.one_of(
         st.binary(min_size=1, max_size=7),
@@ -169,7 +169,7 @@ def campaign(col, tier, seed, shard, nshards):
         for name in [""] + INVALID:
             go({"kind": "config_invalid", "name": name}, sample=(name == "F"))
         col.exhaustive["config_names"] = True
-    for enc in km.ENCODINGS:
+    for enc in km.ENCODINGS + km.ALIASES:
         nodes = c03.tree_nodes(enc, tier)
         nev = nnt = 0
         for node in nodes[shard::nshards]:
